@@ -56,16 +56,30 @@ class FakeSocket(socket.socket):
         super().__init__(socket.AF_INET, socket.SOCK_STREAM)
         self._events = list(events)
         self._n = 0
+        self.log = []          # what each recv() returned (None = failed): the event list the model is given
 
     def recv(self, bufsize, flags=0):
+        # at most bufsize bytes of what has arrived; recv(0) -> b""; negative -> ValueError (as a real stream socket)
+        if not isinstance(bufsize, int) or isinstance(bufsize, bool):
+            raise TypeError("an integer is required")
+        if bufsize < 0:
+            raise ValueError("negative buffersize in recv")
+        if bufsize == 0:
+            self.log.append(b"")
+            return b""
         if not self._events:
             return b""
         e = self._events.pop(0)
         self._n += 1
         if e is None:
+            self.log.append(None)
             if self._n % 2:
                 raise TimeoutError("timed out")
             raise OSError("connection reset")
+        if len(e) > bufsize:
+            self._events.insert(0, e[bufsize:])
+            e = e[:bufsize]
+        self.log.append(e)
         return e
 
 
@@ -250,7 +264,7 @@ def add_sock_case(em, p, events, cfg, k, desc, chunked=False, bufsize=4096):
         exp = ser_results(res) + vlib.ser_bytes(bytes(rd.datastream.buffer)) + b"\x00"
     finally:
         sk.close()
-    em.add("obs_reader_sock T %s %s %s %s" % ("true" if chunked else "false", cfg_expr(cfg), vlib.natlit(k), blist(events)), exp, [], desc,
+    em.add("obs_reader_sock T %s %s %s %s" % ("true" if chunked else "false", cfg_expr(cfg), vlib.natlit(k), blist(list(sk.log))), exp, [], desc,
            {"recv_events": [e.hex() if e is not None else None for e in events], "cfg": list(cfg), "reads": k, "chunked": chunked, "bufsize": bufsize},
            {"events": readable(res)}, size=sum(len(e) for e in events if e))
     return res
@@ -552,6 +566,23 @@ def main():
                     res, _ = run_reader(p, FStream(data), cfg, 8)
                     check_C01(em, data, res, cfg, "CRC-consistent frame with reserved header bit %d set" % bit)
                     em.count("crafted.reservedbit")
+        # direct only: behind a header announcing L payload bytes, data whose CRC is consistent at ANOTHER length (L-256, L-3, L-1, L+1, L+3,
+        # L+256): a reader that miscomputes how many bytes belong to the frame would deliver a "frame" whose length field does not equal
+        # the enclosed payload size
+        good = gen.frame(valid_payloads(tabs, rng, 1)[0])
+        for L in (3, 19, 253, 254, 255, 256, 257, 509, 510, 511, 512, 767, 768, 1021, 1022, 1023) + tuple(rng.sample(range(4, 1023), 6 if thorough else 2)):
+            for delta in (-256, -3, -1, 1, 3, 256):
+                n_ = L + delta
+                if not 2 <= n_ <= 1300:
+                    continue
+                hdr = bytes([0xD3, L >> 8, L & 255])
+                body = bytes([0x3e, 0xd0]) + bytes(rng.choice([x for x in range(256) if x != 0xD3]) for _ in range(n_ - 2))
+                crafted = hdr + body + gen.crc24q_ref(hdr + body).to_bytes(3, "big")
+                data = good + crafted + bytes(300) + good
+                cfg = (1, 0, 1, True)
+                res, _ = run_reader(p, FStream(data), cfg, 12)
+                check_C01(em, data, res, cfg, "header announces %d payload bytes, the data is CRC-consistent at %d" % (L, n_))
+                em.count("crafted.otherlength")
         # direct only: a valid frame F = A + B whose two halves are separated by other material -- NESTED false frames (an outer
         # damaged frame whose extent holds an inner damaged frame ending in A, then left-over bytes R), a damaged frame, foreign
         # traffic.  F is not a slice of the stream: a reader that pushes rejected bytes back, resynchronises inside frames or
@@ -757,7 +788,19 @@ def main():
                             l_.addHandler(nh)
                     elif logstate == "disabled-globally":
                         logging.disable(logging.CRITICAL)
-                    for hobj, count in ((coll, lambda: len(coll)), (plain.append, lambda: len(plain))):
+                    class Monitor:                       # a bound method of a user object
+                        def __init__(self):
+                            self.seen = []
+
+                        def on_error(self, err):
+                            self.seen.append(err)
+                    mon = Monitor()
+                    import functools as _ft
+                    part = []
+                    deflt = []
+                    for hobj, count in ((coll, lambda: len(coll)), (plain.append, lambda: len(plain)), (mon.on_error, lambda: len(mon.seen)),
+                                        (_ft.partial(lambda sink, err: sink.append(err), part), lambda: len(part)),
+                                        ((lambda err, sink=deflt: sink.append(err)), lambda: len(deflt))):
                         try:
                             got = [raw for raw, _ in p.RTCMReader(io.BytesIO(data), quitonerror=1, errorhandler=hobj)]
                         except Exception as e:  # noqa
@@ -871,9 +914,13 @@ def main():
                             if r[0] == "Y" and (r[2] is None or r[2].payload != r[1][3:-3]):
                                 em.violation("C17: with validation off a frame is not decoded from its own bytes", {"stream": seq.hex(), "cfg": list(cfg)}, {"frame": r[1].hex()})
                     em.direct_evaluations += 1
-                    m_a = p.RTCMReader.parse(fa, validate=0)
-                    m_b = p.RTCMReader.parse(fb_bad, validate=0)
-                    if m_b.payload != b_pl or m_a.payload != a_pl:
+                    try:
+                        m_a = p.RTCMReader.parse(fa, validate=0)
+                        m_b = p.RTCMReader.parse(fb_bad, validate=0)
+                    except Exception as e:  # noqa
+                        em.violation("C17: static parse with validate=0 raised %r on a frame that parses with validation on" % e, {"frame": fa.hex(), "other": fb_bad.hex()}, {})
+                        m_a = m_b = None
+                    if m_a is not None and (m_b.payload != b_pl or m_a.payload != a_pl):
                         em.violation("C17: static parse with validate=0 returns another frame's message", {"frame": fb_bad.hex(), "previous": fa.hex()}, {})
             # several readers alive at once, configured differently, read in turn: each keeps ITS options
             if it % 2 == 0:
@@ -884,8 +931,13 @@ def main():
                 if not ok:
                     continue
                 g = f[:-3] + bytes([f[-3] ^ 0x55, f[-2], f[-1] ^ 1])
-                m1 = p.RTCMReader.parse(g, validate=0, labelmsm=lab_)
-                m2 = p.RTCMReader.parse(f, validate=1, labelmsm=lab_)
+                try:
+                    m1 = p.RTCMReader.parse(g, validate=0, labelmsm=lab_)
+                    m2 = p.RTCMReader.parse(f, validate=1, labelmsm=lab_)
+                except Exception as e:  # noqa
+                    em.violation("C17: static parse raised %r (validate=0 on the wrong-checksum copy / validate=1 on the right frame of a payload that constructs)" % e,
+                                 {"frame": g.hex(), "right_frame": f.hex()}, {})
+                    continue
                 if full_obs(m1) != full_obs(m2):
                     em.violation("C17: static parse with validate=0 of a wrong-checksum frame differs from the parse of the right frame (identity, payload, attributes, str, repr, serialize)", {"frame": g.hex(), "right_frame": f.hex()}, {})
         em.samples = [{"options": "validate x parsed x mode product on good and wrong-checksum copies of each stream"}]
